@@ -67,10 +67,16 @@ package sortio
 //@   loop 1 invariant i4: forall(k, 0, len(m.heap.Buffers), exists(j, 0, old(len(m.heap.Buffers)), m.heap.Buffers[k] == old(m.heap.Buffers[j])))
 //@   loop 1 invariant forall(c, 0, len(out.data), forall(k, implies(k < out.off || k >= out.off + out.len, ColMem[out.data[c].ptr][k] == old(ColMem[out.data[c].ptr][k]))))
 
-//@ extern func sortio.NewMergeReader (ctx, typ, readers) (r, err)
+// NewMergeReader gives every input its own window of one freshly made frame, keeps only the inputs that delivered
+// rows, and reports the first fill error (never as end-of-stream); the reader it returns satisfies the dynamic part
+// of mergeReader.Read's precondition: every buffer holds unread rows.
+//@ func sortio.NewMergeReader (ctx, typ, readers) (r, err)
+//@   requires forall(i, 0, len(readers), readers[i] != nil) && sliceio.SpillBatchSize >= 1 && typ != nil
 //@   may_panic
-//@   modifies unknown
-//@   preserves spillCleanups, spillCalls, sortCalls, lastSortedOff, lastSortedLen, lastSpilledOff, lastSpilledLen, nReadFull, lastReadFullErr
+//@   ensures  failed: implies(err != nil, r == nil && err != sliceio.EOF)
+//@   ensures  built: implies(err == nil, hastype(r, *mergeReader) && unbox(r, *mergeReader).err == nil && unbox(r, *mergeReader).heap != nil && len(unbox(r, *mergeReader).heap.Buffers) <= len(readers) && forall(k, 0, len(unbox(r, *mergeReader).heap.Buffers), unbox(r, *mergeReader).heap.Buffers[k] != nil && unbox(r, *mergeReader).heap.Buffers[k].Reader != nil && mbufDyn(unbox(r, *mergeReader).heap.Buffers[k])))
+//@   modifies SReader.nreads, SReader.lastN, SReader.lastErr, rowsSupplied, sawRowsWithEOF, ColMem, colClock
+//@   loop 1 invariant h != nil && fresh(h) && fresh(h.Buffers) && len(h.Buffers) <= range_idx && cap(h.Buffers) == len(readers) && forall(k, 0, len(h.Buffers), h.Buffers[k] != nil && fresh(h.Buffers[k]) && h.Buffers[k].Reader != nil && mbufDyn(h.Buffers[k]))
 
 // SortReader: input errors are reported (never turned into end-of-stream), every run is sorted before it is
 // spilled, arithmetic on the measured run size is safe, and the spill directory is cleaned up on every exit.
